@@ -692,6 +692,11 @@ func (u *Ufs) Wstat(req *SrvReq) {
 				req.RespondError(&Error{"invalid file name", EINVAL})
 				return
 			}
+			if fid.path == filepath.Clean(u.Root) {
+				// the root's own name lives in its parent directory, outside the exported tree
+				req.RespondError(Eperm)
+				return
+			}
 			fiddir, _ := path.Split(fid.path)
 			destpath = filepath.Join(fiddir, dir.Name)
 			fmt.Printf("rel  results in %s\n", destpath)
